@@ -199,7 +199,7 @@ PROPS = {
                           'the link "the main loop is in the growing phase only if growing.ndirs_initial < npt-1 (or restarts enlarge the set)" is NOT decided (numeric assumption N5), and '
                           'with projections the rank-deficiency fallback of the coordinate initialisation draws random numbers unconditionally (used only if the projected directions are '
                           'rank deficient): with projections the clause is not decided. ' + LEDGER_NOTE,
-            'not_decided': ['N5 growing-phase link', 'projections: rank-deficiency fallback (path-sensitive taint not built)']},
+            'not_decided': ['projections: rank-deficiency fallback (path-sensitive taint not built)', 'growing-phase link N5 under projections (decided without projections: ledger invariant)']},
     'C20': {'bundles': ['jsonrt', 'strtot'], 'level': 'proof',
             'level_text': 'Field-wise: to_dict writes exactly the 12 fields, each with the documented encoding (contract on the real body); from_dict decodes each key into the '
                           'field of the same name through the real constructor (call conformance, parameter order); 24 round-trip lemmas DEC_f(json(ENC_f(v))) == norm_f(v) over '
